@@ -86,6 +86,13 @@ def field_mutants(rnd, z, limit=None):
                 def f(y, a=a, b2=b2, i=i, j=j):
                     y.chunks[i]['comp_len_enc'] = Z.ci(a); y.chunks[j]['comp_len_enc'] = Z.ci(b2)
                 var('sum-boundary', f)
+        # three sizes that each fit but whose running sum wraps past 2^64 to a small total
+        for trip in ((M, M, 5), (M, M, 2), (M, M, 300), (M, M, M), (2**62, M, M), (M, 2**62 + 2**61, 2**62 + 2**61 + 7)):
+            for idx in ((n - 3, n - 2, n - 1), (0, 1, n - 1)):
+                if len(set(idx)) < 3 or min(idx) < 0: continue
+                def f3(y, trip=trip, idx=idx):
+                    for i, v in zip(idx, trip): y.chunks[i]['comp_len_enc'] = Z.ci(v)
+                var('sum-boundary', f3)
     for fl in (2, 3, 4, 5, 6, 8, 16, 64):
         var('flags=%d' % fl, lambda y, fl=fl: setattr(y, 'o_flags_enc', Z.ci(fl)))
     for ct in (1, 3):
